@@ -53,10 +53,11 @@ BOX = 99
 
 
 def constants(tier, emit=False):
-    quick = tier == "quick"
-    return dict(EMIT=emit, Algos={"ppo", "a2c", "pg"}, NEnvsS={1, 2}, NStepsS={2, 3}, EpochsS={1, 2}, MBs={0, 2, 4} if quick else {0, 2, 3, 4},
-                Shuffles={False, True}, Iterations=2, Budget=7, MinSamples=3, EpLens={1, 2} if quick else {1, 2, 3}, MaxSamples=4 if quick else 5,
-                MaxEpisodes=3 if quick else 4, Starts={0, 2, BOX})
+    if tier == "quick":
+        return dict(EMIT=emit, Algos={"ppo", "a2c", "pg"}, NEnvsS={1, 2}, NStepsS={2, 3}, EpochsS={1, 2}, MBs={0, 2, 4}, Shuffles={False, True}, Iterations=2, Budget=7,
+                    MinSamples=3, EpLens={1, 2}, MaxSamples=4, MaxEpisodes=3, Starts={0, 2, BOX})
+    return dict(EMIT=emit, Algos={"ppo", "a2c", "pg"}, NEnvsS={1, 2}, NStepsS={2, 3, 4}, EpochsS={1, 2, 3}, MBs={0, 2, 3, 4}, Shuffles={False, True}, Iterations=3, Budget=9,
+                MinSamples=3, EpLens={1, 2, 3}, MaxSamples=5, MaxEpisodes=4, Starts={0, 2, BOX})
 
 
 # ---------------------------------------------------------------- EpisodeDataset binding (spec -> code)
@@ -162,7 +163,7 @@ def dataset_part(rep, emitted):
 
 # ---------------------------------------------------------------- trace binding (code -> spec)
 KEEP = {"reset", "step", "collect_begin", "ds_start", "ds_add", "collect_end", "update_begin", "loss", "opt", "update_end", "end", "error"}
-EV_DEFAULTS = dict(env=0, obs=[-1, -1, -1], term=False, trunc=False, n=0, tae=False, pv=-1, vv=-1, kind="none", rows=[], eps=[], before=-1, after=-1, dp=0, dv=0, msg="")
+EV_DEFAULTS = dict(env=0, obs=[-1, -1, -1], term=False, trunc=False, n=0, ne=0, tae=False, pv=-1, vv=-1, kind="none", rows=[], eps=[], before=-1, after=-1, dp=0, dv=0, msg="")
 
 
 def normalise(trace):
@@ -236,8 +237,8 @@ def corruptions(norm):
         out.append((t, {"CollectUsesLatest"}))
         t = copy.deepcopy(ppo)
         t["id"] = "canary:epoch_missing"
-        i = _find(t["events"], lambda e: e["ev"] == "loss")
-        del t["events"][i:i + 3]
+        j = _find(t["events"], lambda e: e["ev"] == "update_end")
+        del t["events"][j - 3:j]  # the last epoch of the first update: loss, opt, opt
         out.append((t, {"OptimiserStepCount"}))
     if pg:
         t = copy.deepcopy(pg)
@@ -315,7 +316,12 @@ def run(rep):
     quick = rep.tier == "quick"
     for m in ("OnPolicy", "OnPolicyTrace"):
         tlc.sany(m)
-    wait_rec = record(rep.tier, rep.seed)  # the real runs start now, in their own process
+    # the real runs start now, in their own process(es)
+    from .x03_record import scenarios
+
+    ids = [sc["id"] for sc in scenarios(rep.tier, rep.seed)]
+    parts = [ids] if quick else [ids[0::2], ids[1::2]]
+    waits = [record(rep.tier, rep.seed, only=part) for part in parts]
 
     C = constants(rep.tier)
     pool = ThreadPoolExecutor(4)
@@ -348,11 +354,15 @@ def run(rep):
     g = f_gen.result()
     rep.add_tlc(g, "OnPolicy EpisodeDataset graph generation")
     G, res = dataset_part(rep, g.emitted)
-    rep.sample({"dataset_transition": [e for e in g.emitted if e["op"] == "prepare"][len(g.emitted) // 9]})
+    prep = [e for e in g.emitted if e["op"] == "prepare" and len(e["pre"]["episodes"]) > 1 and e["pre"]["cnt"] > 2]
+    rep.sample({"dataset_transition": prep[(7 * rep.seed + 5) % len(prep)]})
     nontrivial_ds = sum(1 for k, es in G.out.items() for e in es if G.state[k]["cnt"] > 0)
 
     # (3) recorded runs of the real routines
-    traces = wait_rec()
+    got = {t["id"]: t for wt in waits for t in wt()}
+    if sorted(got) != sorted(ids):
+        raise tlc.MachineryError(f"recording workers returned {sorted(got)}, expected {sorted(ids)}")
+    traces = [got[i] for i in ids]
     norm, verdicts, rt = judge_traces(rep, traces)
     rep.add_tlc(rt, f"OnPolicyTrace {len(norm)} recorded runs, {sum(len(t['events']) for t in norm)} events")
     calls = {}
@@ -364,7 +374,8 @@ def run(rep):
         for c in v["clauses"]:
             pos = v["pos"]
             ctx = t["events"][max(0, pos - 3):pos]
-            rep.violation(f"{routine}:{c}", f"{t['id']}: clause {c} fails at event {pos} {json.dumps(t['events'][pos - 1])[:300]} (all failing clauses: {v['clauses']})",
+            shown = {k: x for k, x in t["events"][pos - 1].items() if x != EV_DEFAULTS.get(k)} if 0 < pos <= len(t["events"]) else {}
+            rep.violation(f"{routine}:{c}", f"{t['id']}: clause {c} fails at event {pos} {json.dumps(shown)[:400]} (all failing clauses: {v['clauses']})",
                           {"kind": "trace", "id": t["id"], "clauses": v["clauses"], "pos": pos, "context": ctx, "scenario": raw.get("scenario")})
     rep.extra["real_calls"] = calls
     rep.extra["runs"] = {t["id"]: dict(iterations=verdicts[t["id"]]["iters"], policy_steps=verdicts[t["id"]]["psteps"], value_steps=verdicts[t["id"]]["vsteps"],
